@@ -237,7 +237,7 @@ def check(env, rep, tier):
             okt = okp = True if n_ok == 1 else (okt, okp)[0]
         okt = okp = n_ok > 0
         for s, rv in res:
-            if not (isinstance(rv, EnumV) and list(rv.variants) == [0]):
+            if not (isinstance(rv, EnumV) and list(rv.variants) == [0]) or infeasible(s):
                 continue
             pk = rv.variants[0].fields[0]
             tk, pl = pk.fields[P["token"]], pk.fields[P["payload"]]
